@@ -3,7 +3,7 @@ CONSTANTS
   MaxLen = 3
   Alphabet = {0, 1}
   SubValsP = {5, 1, 4}
-  GapsP = {2, 1, 3}
+  GapsP = {0, 2, 1, 3}
 INVARIANT DPIsOptimal
 INVARIANT Attained
 CHECK_DEADLOCK FALSE
